@@ -111,6 +111,11 @@ class Injector:
             if self.action == 'term':
                 os.kill(os.getpid(), signal.SIGTERM)
                 time.sleep(30)
+            if self.action == 'int':
+                # a SIGINT that reaches this process (Ctrl-C goes to the whole foreground process group): a worker
+                # that ignores it, as labtech's workers do, simply carries on
+                os.kill(os.getpid(), signal.SIGINT)
+                return None
             if self.action == 'park':
                 time.sleep(40)
                 os._exit(98)
